@@ -230,24 +230,26 @@ theorem nest_fn_eq_rule_nest (q : NestQuirks) (a b : SelSet) (ha : ∀ i ∈ a, 
 
 /-! ### append -/
 
-/-- **selector.append = `&`-suffix nesting** (specification model of `resolve_ref`): when
+/-- **selector.append = `&`-suffix nesting** (the nesting code as it is, `nestAsis`: both go through
+`CompoundSelector::append`, whose re-parse keeps only the last `#id` — C19 finding
+C19-amp-id-suffix-lost; `nestAsis` keeps both ids and therefore differs from `selector.append` there): when
 `selector.append(a, c)` succeeds for a simple suffix `c` (no `&`, no selector arguments), its
 result is the selector emitted for `a { &c { … } }`. -/
 theorem append_eq_amp_suffix (a : SelSet) (c : Compound) (R : SelSet)
     (ha : ∀ i ∈ a, i.hasBackref = false) (hroot : SelSet.isRoot a = false)
     (hc : c.backref = false) (hps : ∀ p ∈ c.pseudos, ∀ X, p.arg ≠ .sel X)
-    (h : fnAppend a [.leaf c] = some R) : ruleNest nestSpec a (ampSuffix c) = R := by
-  rw [ruleNest_eq nestSpec a _ ha hroot]
+    (h : fnAppend a [.leaf c] = some R) : ruleNest nestAsis a (ampSuffix c) = R := by
+  rw [ruleNest_eq nestAsis a _ ha hroot]
   unfold SelSet.nest ampSuffix
   simp only [List.map_cons, List.map_nil, roundRobin_singleton]
   have hb : (Selector.leaf (c.setBackref true)).hasBackref = true := by
     cases c; simp [Selector.hasBackref, Compound.hasBackref, Compound.setBackref]
   simp only [nestRow, hb, if_true, Selector.resolveRef]
-  have hres : Compound.resolveInPseudo nestSpec a (c.setBackref true) = c.setBackref true := by
+  have hres : Compound.resolveInPseudo nestAsis a (c.setBackref true) = c.setBackref true := by
     cases c with
     | mk b e p cl i at' ps =>
       simp only [Compound.setBackref, Compound.resolveInPseudo]
-      rw [Pseudo.resolveRefList_noSel nestSpec a ps (by simpa [Compound.pseudos] using hps)]
+      rw [Pseudo.resolveRefList_noSel nestAsis a ps (by simpa [Compound.pseudos] using hps)]
   have hbr : (c.setBackref true).backref = true := by cases c; rfl
   rw [hres]
   simp only [resolveCompound, hbr, if_true, Compound.setBackref_roundtrip c hc]
